@@ -20,10 +20,19 @@ EXPLANATION = (
     '(cli_convert, cli_convert_mpi; no model side): `ref translate` / `refmpi translate` at np = 0,2,3 between '
     'meshb and the six binary UGRID flavours on tet boxes and a prism slab with triangle + quad boundary and '
     'large ids; every output is parsed by the independent checks/pyio.py reader and must equal the input mesh '
-    '(coordinates bitwise, cells with orientation and tags).')
+    '(coordinates bitwise, cells with orientation and tags).  PARALLEL READER (work package partmeshb; '
+    'Props/C08Part.lean): partRead_eq_serial_partial - when rank 0 of the parallel reader and the serial reader both '
+    'accept a file (version >= 2, 1 <= nnode < 2^31, no two cells of a group on the same vertex set), the parallel read '
+    'succeeds on every np >= 1 and its gather (vertices from their owners, every cell from the rank that owns it) is the '
+    'serial mesh: vertices in order bit for bit, per group a permutation of the cells with ids, the CAD bytes on every '
+    'rank, the 2-D flag; with roundtrip_meshb this is the round trip of the parallel reader.  Geometry-association '
+    'records are NOT in the theorem (tied only).  Tie: partmeshb_read (np 1..5: files from the independent writer '
+    'checks/meshio_ref.py, versions 2/3/4, 2-D/3-D, all cell kinds incl. pyramids and high-order, geometry records, '
+    'CAD bytes with all 256 values; per-rank dump == model; python oracle: gathered == file) and partmeshb_chunk.')
 ASSUMPTIONS = [
-    'serial reader/writer only (ref_import_meshb / ref_export_meshb); the parallel pair ref_part/ref_gather is tied '
-    'only through the translated pyramid shuffles',
+    'serial reader/writer: Props/C08.lean; parallel READER ref_part_meshb: Props/C08Part.lean (gather is a spec-level '
+    'definition there: owner-filtered concatenation; the parallel WRITER ref_gather is tied only through the translated '
+    'pyramid shuffles and C07Gather)',
     'binary ugrid bodies are not modelled in Lean (only their byte order is); they are covered end-to-end by the '
     'cli_convert streams against the independent parser; su2, msh, fgrid, ascii ugrid are not covered',
     'ref_grid_inward_boundary_orientation (run by ref_import_by_extension after the reader) is outside the model; '
